@@ -278,6 +278,28 @@ func propC11(c *Check) {
 		})
 		c.Require(!rev, "shape", shortName(f)+"|forward scan", "custodian records are scanned in increasing timestamp order (the last one not after ts wins)", "Reverse set")
 	}
+	// ---- storage readAllNodes: a record later than the threshold influences nothing — inside the key
+	// scan every accumulation (append, map update) is reachable only past `ts > threshold => skip`
+	if f := c.F("storage.readAllNodes"); f != nil {
+		scan := c.ForOrRangeLoopWithCall(f, "key scan", "(*github.com/dgraph-io/badger/v4.Iterator).Next")
+		var acc []ssa.Instruction
+		if scan != nil {
+			for bi := range scan.Blocks {
+				for _, ins := range f.Blocks[bi].Instrs {
+					switch x := ins.(type) {
+					case *ssa.MapUpdate:
+						acc = append(acc, ins)
+					case *ssa.Call:
+						if calleeName(&x.Call) == "builtin:append" {
+							acc = append(acc, ins)
+						}
+					}
+				}
+			}
+		}
+		ts := Extract(1, Call("storage.nodeSignerFromStateKey"))
+		c.MustPass(f, Gate{Name: "ts > threshold => skip", RejectOnTrue: true, Cond: Bin(token.GTR, ts, Param("threshold"))}, acc, "any accumulation inside the key scan (later records cannot change a historical answer)")
+	}
 	// ---- CNode records are immutable after construction: every store to a field of a
 	// *kernel.CNode in the whole module targets an object allocated by the storing function
 	// (a copy or a fresh literal). A view that wrote into the shared records of
